@@ -39,6 +39,10 @@ Inductive framing :=
 | FFixed (n : Z)                               (* contentLength = n >= 0 *)
 | FChunked (cs : list chunk) (zl tl : Z).      (* contentLength = -1; zl = length of the last-chunk line, tl = trailer section incl. final CRLF *)
 
+Definition chunk_len (c : chunk) : Z := ch_line c + ch_size c + (if ch_ok c then 2 else 1).
+Fixpoint chunks_len (cs : list chunk) : Z :=
+  match cs with [] => 0 | c :: cs' => chunk_len c + chunks_len cs' end.
+
 (* what the handler does with the body stream *)
 Inductive rdprog :=
 | RNone                 (* no Read call *)
@@ -63,7 +67,11 @@ Record req := mkReq {
   r_expect_status : Z;      (* answer of ExpectHandler for this request *)
   r_continue_ok : bool;     (* answer of ContinueHandler for this request *)
   r_rd : rdprog;
-  r_fin : finact }.
+  r_fin : finact;
+  r_pick : nat;             (* which pooled requestStream object requestStreamPool.Get hands out (beyond the pool: a new one) *)
+  r_alt : option (Z * Z) }. (* Some (d, sid): the body bytes are such that at raw body offset d there is CRLF, a last-chunk
+                               line and trailer like the real ones, and then a whole request-looking unit number sid:
+                               what a chunked reader sees that takes the first d raw bytes of the body for chunk data *)
 
 Record cfg := mkCfg {
   c_stream : bool;          (* StreamRequestBody *)
@@ -174,17 +182,39 @@ Record sst := mkSst {
   s_eof : bool;
   s_err : option rc }.     (* rs.err: the sticky chunked framing error (what every later Read returns) *)
 
-(* repeated Read calls until `want` more data bytes were delivered (None: until EOF) *)
+(* repeated Read calls until `want` more data bytes were delivered (None: until EOF).
+   totalBytesRead normally starts at 0; the code is followed for any start value (a pooled object
+   that was not reset): bytes below max(totalBytesRead, prefetched) need no connection read, the
+   length test is `totalBytesRead == contentLength`. *)
 Definition fread (lim : option Z) (st : sst) (want : option Z) : rc * sst :=
   let cl := s_cl st in
   let t := s_t st in
   if t =? cl then (RcEof, st)
+  else if cl <? t then
+    (* the length test never fires: every Read takes what it is asked for from the connection *)
+    match want with
+    | Some k =>
+        match adv lim (s_pos st) k with
+        | Some p => (RcOk, mkSst true cl (s_pre st) [] false p (t + k) false None)
+        | None => let p := adv_most lim (s_pos st) k in (RcEof, mkSst true cl (s_pre st) [] false p (t + (p - s_pos st)) false None)
+        end
+    | None =>
+        match lim with
+        | Some a => let p := Z.max a (s_pos st) in (RcEof, mkSst true cl (s_pre st) [] false p (t + (p - s_pos st)) false None)
+        | None => (RcErr, st)          (* blocks until the peer gives up *)
+        end
+    end
   else
     let target := match want with Some k => Z.min (t + k) cl | None => cl end in
-    (* data bytes below s_pre are in prefetchedBytes, the others come from the connection *)
-    let avail := match lim with None => target | Some a => Z.min target (Z.max a (s_pre st)) end in
-    let t' := Z.max t avail in
-    let st' := mkSst true cl (s_pre st) [] false (Z.max (s_pos st) t') t' false None in
+    (* data bytes below base need no connection read *)
+    let base := Z.max t (s_pre st) in
+    let reach := if target <=? base then target
+                 else match lim with
+                      | None => target
+                      | Some a => Z.min target (base + Z.max 0 (a - s_pos st))
+                      end in
+    let t' := Z.max t reach in
+    let st' := mkSst true cl (s_pre st) [] false (s_pos st + Z.max 0 (t' - base)) t' false None in
     if t' <? target then (RcEof, st')                   (* rs.reader.Read returned io.EOF: passed on as is *)
     else match want with
          | Some k => if target =? t + k then (RcOk, st') else (RcEof, st')
@@ -253,6 +283,98 @@ Definition sread (lim : option Z) (zl tl : Z) (st : sst) (want : option Z) : rc 
 
 (* requestStream.drained: the whole body has been read from the stream *)
 Definition drained (st : sst) : bool := if s_fixed st then s_t st =? s_cl st else s_eof st.
+
+(* ------------------------------------------------------------------------------------ *)
+(* requestStreamPool                                                                    *)
+(* ------------------------------------------------------------------------------------ *)
+
+(* The fields of a requestStream object that acquireRequestStream does NOT assign (it sets
+   prefetchedBytes, reader, header and contentLength): what the previous user left in them is what
+   the next request's stream starts with, on any connection.  releaseRequestStream is the only
+   thing that clears them. *)
+Record rsobj := mkRs { o_t : Z; o_left : Z; o_eof : bool; o_err : option rc }.   (* totalBytesRead, chunkLeft, eof, err *)
+Definition rs_new : rsobj := mkRs 0 0 false None.                                 (* requestStreamPool.New *)
+
+(* releaseRequestStream, assignment by assignment (the other four fields are overwritten by acquire) *)
+Definition releaseRequestStream (o : rsobj) : rsobj :=
+  let o := mkRs 0 (o_left o) (o_eof o) (o_err o) in       (* rs.totalBytesRead = 0 *)
+  let o := mkRs (o_t o) 0 (o_eof o) (o_err o) in          (* rs.chunkLeft = 0 *)
+  let o := mkRs (o_t o) (o_left o) false (o_err o) in     (* rs.eof = false *)
+  mkRs (o_t o) (o_left o) (o_eof o) None.                 (* rs.err = nil *)
+
+Definition rspool := list rsobj.
+Definition rs_acquire (p : rspool) (k : nat) : rsobj * rspool :=
+  match nth_error p k with
+  | Some o => (o, (firstn k p ++ skipn (S k) p)%list)
+  | None => (rs_new, p)
+  end.
+
+(* a stream together with the chunkLeft it inherited and has not used up yet *)
+Record dstream := mkD { d_skip : Z; d_st : sst }.
+
+(* the clean stream of ContinueReadBodyStream overlaid with what the pooled object carried *)
+Definition stream_on (o : rsobj) (st : sst) : dstream :=
+  mkD (o_left o)
+      (mkSst (s_fixed st) (s_cl st) (s_pre st) (s_chs st) (s_open st) (s_pos st) (o_t o)
+             (if s_fixed st then false else o_eof o) (if s_fixed st then None else o_err o)).
+
+(* where a reader lands that took the first raw bytes of a chunked body for chunk data and now expects
+   CRLF at raw offset p: at the intact terminator of a real chunk (the real chunks after it remain) ... *)
+Fixpoint land_real (cs : list chunk) (off p : Z) : option (list chunk) :=
+  match cs with
+  | [] => None
+  | c :: cs' =>
+      if (p =? off + ch_line c + ch_size c) && ch_ok c then Some cs'
+      else land_real cs' (off + chunk_len c) p
+  end.
+
+(* requestStream.Read with an inherited chunkLeft: no size line is parsed, the next d_skip raw bytes
+   are delivered as data, then readCrLf *)
+Definition dread (lim : option Z) (zl tl : Z) (cs : list chunk) (alt : option (Z * Z)) (d : dstream) (want : option Z) : rc * dstream :=
+  let st := d_st d in
+  match want with
+  | Some 0 => (RcOk, d)
+  | _ =>
+    if s_fixed st || s_eof st || (match s_err st with Some _ => true | None => false end) || (d_skip d <=? 0) then
+      let '(x, st') := sread lim zl tl st want in (x, mkD (if s_fixed st then d_skip d else if d_skip d <=? 0 then 0 else d_skip d) st')
+    else
+      let n := match want with Some k => Z.min k (d_skip d) | None => d_skip d end in
+      match adv lim (s_pos st) n with
+      | None =>
+          let got := adv_most lim (s_pos st) n - s_pos st in     (* io.ErrUnexpectedEOF *)
+          (RcErr, mkD (d_skip d - got) (mkSst false 0 0 (s_chs st) false (s_pos st + got) (s_t st + got) false None))
+      | Some p2 =>
+          if n <? d_skip d then
+            (RcOk, mkD (d_skip d - n) (mkSst false 0 0 (s_chs st) false p2 (s_t st + n) false None))
+          else
+            (* chunkLeft == 0: readCrLf at raw offset p2 *)
+            let landed :=
+              match land_real cs 0 p2 with
+              | Some rest => Some rest
+              | None => match alt with Some (a, _) => if p2 =? a then Some [] else None | None => None end
+              end in
+            match landed, adv lim p2 2 with
+            | Some rest, Some p3 =>
+                let st' := mkSst false 0 0 rest false p3 (s_t st + n) false None in
+                let want' := match want with Some k => Some (k - n) | None => None end in
+                match want' with
+                | Some 0 => (RcOk, mkD 0 st')
+                | _ => let '(x, st'') := sread lim zl tl st' want' in (x, mkD 0 st'')
+                end
+            | _, _ =>
+                (* no CRLF there: the error is kept in rs.err *)
+                (RcErr, mkD 0 (mkSst false 0 0 (s_chs st) false (adv_most lim p2 1) (s_t st + n) false (Some RcErr)))
+            end
+      end
+  end.
+
+(* rs.chunkLeft of the object when it goes back to the pool *)
+Definition left_of (d : dstream) : Z :=
+  let st := d_st d in
+  if s_fixed st then d_skip d
+  else if 0 <? d_skip d then d_skip d
+  else if s_open st then match s_chs st with c :: _ => ch_size c | [] => 0 end else 0.
+Definition obj_of (d : dstream) : rsobj := mkRs (s_t (d_st d)) (left_of d) (s_eof (d_st d)) (s_err (d_st d)).
 
 (* ------------------------------------------------------------------------------------ *)
 (* streaming body reading: Request.ContinueReadBodyStream                               *)
@@ -328,36 +450,30 @@ Definition read_body (c : cfg) (r : req) (expect_path : bool) : bphase :=
     | NErr => BFail
     end.
 
+Definition cs_of (f : framing) : list chunk := match f with FChunked cs _ _ => cs | _ => [] end.
+Definition rread (r : req) (d : dstream) (want : option Z) : rc * dstream :=
+  dread (r_lim r) (zl_of (r_fr r)) (tl_of (r_fr r)) (cs_of (r_fr r)) (r_alt r) d want.
+
 (* the handler's reads *)
-Definition run_reads (r : req) (st : sst) : Z * rc * sst :=
-  let zl := zl_of (r_fr r) in let tl := tl_of (r_fr r) in
+Definition run_reads (r : req) (d : dstream) : Z * rc * dstream :=
   match r_rd r with
-  | RNone => (0, RcOk, st)
+  | RNone => (0, RcOk, d)
   | RUpTo k =>
-      let '(x, st') := sread (r_lim r) zl tl st (Some k) in
-      let n := s_t st' - s_t st in
-      (n, (if n =? k then RcOk else x), st')          (* the reading loop stops, satisfied, at k bytes whatever came with them *)
-  | REOF => let '(x, st') := sread (r_lim r) zl tl st None in (s_t st' - s_t st, x, st')
+      let '(x, d') := rread r d (Some k) in
+      let n := s_t (d_st d') - s_t (d_st d) in
+      (n, (if n =? k then RcOk else x), d')          (* the reading loop stops, satisfied, at k bytes whatever came with them *)
+  | REOF => let '(x, d') := rread r d None in (s_t (d_st d') - s_t (d_st d), x, d')
   end.
 
 (* io.CopyN(io.Discard, rs, max+1): true = connectionClose *)
-Definition drain (c : cfg) (r : req) (st : sst) : bool * sst :=
-  let '(x, st') := sread (r_lim r) (zl_of (r_fr r)) (tl_of (r_fr r)) st (Some (c_max c + 1)) in
-  (match x with RcEof => false | _ => true end, st').
-
-(* raw result of the handler's reads (what the last Read call returned) *)
-Definition raw_read_rc (r : req) (st : sst) : rc :=
-  let zl := zl_of (r_fr r) in let tl := tl_of (r_fr r) in
-  match r_rd r with
-  | RNone => RcOk
-  | RUpTo k => fst (sread (r_lim r) zl tl st (Some k))
-  | REOF => fst (sread (r_lim r) zl tl st None)
-  end.
+Definition drain (c : cfg) (r : req) (d : dstream) : bool * dstream :=
+  let '(x, d') := rread r d (Some (c_max c + 1)) in
+  (match x with RcEof => false | _ => true end, d').
 
 (* the iteration up to the handler call *)
 Inductive pre :=
 | PStop (evs : list event)                                (* the loop breaks before the handler *)
-| PRun (evs : list event) (pos : Z) (st : option sst).    (* the handler runs: reader position, body stream *)
+| PRun (evs : list event) (pos : Z) (st : option dstream).  (* the handler runs: reader position, body stream *)
 
 Definition expect_verdict (c : cfg) (r : req) : option Z :=   (* Some status: the expectation is rejected with it *)
   if r_expect r then
@@ -445,10 +561,6 @@ Definition serve_one (c : cfg) (r : req) : list event * option Z :=
 (* ------------------------------------------------------------------------------------ *)
 (* the connection: a list of pipelined requests, then end of input                      *)
 (* ------------------------------------------------------------------------------------ *)
-
-Definition chunk_len (c : chunk) : Z := ch_line c + ch_size c + (if ch_ok c then 2 else 1).
-Fixpoint chunks_len (cs : list chunk) : Z :=
-  match cs with [] => 0 | c :: cs' => chunk_len c + chunks_len cs' end.
 
 (* bytes the framing occupies on the wire as the harness writes it *)
 Definition wire_len (f : framing) : Z :=
